@@ -349,7 +349,7 @@ def build(kind, kw, seed):
         pad = b'# padding comment line ..............................\n' * (90 if kw['late'] else 1)
         d = head + pad + b'RW 16 FLAT "/etc/passwd" 0\n'
         im = B.Image('vmdk', d, name='vmdk-text-unsafe-%s' % ('late' if kw['late'] else 'early'),
-                     unsafe={'line'}, bounds=[4, 64, 512])
+                     unsafe={'line'}, bounds=[4, 64, 512], unsafe_from=len(head + pad))
         return im, 'vmdk', [4, len(head), 4096]
     raise ValueError(kind)
 
@@ -389,6 +389,19 @@ def truncated_flag(im):
     return bool(im.facts.get('truncated'))
 
 
+def f1_explains(im, via, path):
+    start = im.facts.get('unsafe_from')
+    if start is None:
+        return False
+    if via == 'inspector' and path:
+        first = next((x for x in path if isinstance(x, int) and x >= 4), len(im.data))
+    elif via in ('file', 'subprocess'):
+        first = min(4096, len(im.data))
+    else:
+        return False
+    return first <= start
+
+
 def _batch(job):
     lo, hi, seed, tmpdir = job
     from vlib.mc import stream as S
@@ -407,14 +420,18 @@ def _batch(job):
         truncated = bool(im.facts.get('truncated'))
         cls = 'unsafe' if im.unsafe else 'clean' if im.clean else 'neither'
         out[cls] += 1
-        sigs = ['F1-vmdk-text-descriptor'] if (fmt == 'vmdk' and findings.f1_vmdk_text(data)) else []
+        f1 = fmt == 'vmdk' and findings.f1_vmdk_text(data)
 
         def problem(what, detail, extra=None):
             if len(out['problems']) < 12:
                 p = {'what': what, 'kind': kind, 'kw': kw, 'fmt': fmt, 'detail': detail,
                      'image': pack(data), 'unsafe': sorted(im.unsafe), 'clean': im.clean,
-                     'sigs': sigs}
+                     'sigs': []}
                 p.update(extra or {})
+                # F1 is the finding "only the bytes of the first read are examined": it explains an
+                # acceptance only if the unsafe content starts beyond the first chunk of >= 4 bytes
+                if f1 and what == 'unsafe-accepted' and f1_explains(im, p.get('via'), p.get('path')):
+                    p['sigs'] = ['F1-vmdk-text-descriptor']
                 out['problems'].append(p)
         # (a) Engine A on the bare inspector
         system = S.InspectorSystem(fmt)
@@ -558,7 +575,8 @@ def check_subprocess(rep, ctx, tmpdir):
         if im.unsafe and rc == 0:
             rep.fail('unsafe-accepted:subprocess', {'job': _JOBS[n]},
                      {'subprocess': True, 'image': pack(im.data)},
-                     sigs=['F1-vmdk-text-descriptor'] if findings.f1_vmdk_text(im.data) else [])
+                     sigs=['F1-vmdk-text-descriptor'] if (findings.f1_vmdk_text(im.data) and
+                                                          f1_explains(im, 'subprocess', None)) else [])
 
 
 def run(ctx):
